@@ -7,6 +7,7 @@ import Iavl.Model.Importer
 import Iavl.Model.ChangeSet
 import Iavl.Model.Store
 import Iavl.Model.KV
+import Iavl.Model.ReadCost
 /-
   The executable face of the model: a line-protocol interpreter that answers every operation of a
   history with exactly the definitions the theorems are about (`VTree.step`, `hashNode`, `mkProof`,
@@ -110,6 +111,8 @@ structure XState where
   kv : KVState := KVState.empty
   kvPfx : Bytes := []
   holds : List (String × Nat) := []   -- open exports: (handle, pinned version)
+  prunedEver : Bool := false           -- a deletion of old versions may re-key a root to (v,0): fetching it then costs a second read
+  cfgCache : Nat := 0                  -- node cache size of the configuration (read counts are predicted for 0 only)
 
 def init : XState := { vs := initT none, opened := false, cfgIv := none }
 
@@ -403,7 +406,8 @@ partial def exec (x : XState) (args : List String) : XState × String :=
   | "cfg" :: rest =>
     let iv := rest.foldl (fun acc a => if a.startsWith "iv=" then parseIv (a.drop 3).toString else acc) x.cfgIv
     let fast := rest.foldl (fun acc a => if a.startsWith "fast=" then a == "fast=1" else acc) x.cfgFast
-    ({ x with cfgIv := iv, cfgFast := fast }, "ok")
+    let cache := rest.foldl (fun acc a => if a.startsWith "cache=" then (a.drop 6).toString.toNat! else acc) x.cfgCache
+    ({ x with cfgIv := iv, cfgFast := fast, cfgCache := cache }, "ok")
   | "open" :: rest =>
     let target := match rest with | t :: _ => t.toNat! | [] => 0
     let (x', r) := stepOp x (.reopen x.cfgIv target)
@@ -477,7 +481,9 @@ partial def exec (x : XState) (args : List String) : XState × String :=
       else
         let (x', r) := stepOp x (.prune n.toNat!)
         (if r == "ok" then { x' with legacyLatest := none } else x', r)
-    | none => stepOp x (.prune n.toNat!)
+    | none =>
+      let (x', r) := stepOp x (.prune n.toNat!)
+      ({ x' with prunedEver := x.prunedEver || r == "ok" }, r)
   | ["delfrom", n] => stepOp x (.delfrom n.toNat!)
   | ["whash"] => (x, enc (some (hashO x.vs.workingVersion x.vs.working)))
   | ["lhash"] => (x, enc (some (hashO 0 x.vs.lastSaved)))
@@ -566,6 +572,19 @@ partial def exec (x : XState) (args : List String) : XState × String :=
      | some none => (x, "?")
      | none => (x, "err"))
   | ["release", id] => ({ x with holds := x.holds.filter (fun h => h.1 != id) }, "ok")
+  | "reads" :: "imm" :: n :: op :: arg :: _ =>
+    -- storage reads of one lookup on a freshly obtained tree of version n, nothing cached: exactly the
+    -- child fetches counted by `getReads` / `hasReads` / `getByIndexReads` (ReadCost.lean)
+    if x.cfgCache != 0 || x.prunedEver then (x, "?") else
+    match findVer x.vs.versions n.toNat! with
+    | some (some t) =>
+      let out (c : Nat) := toString c ++ " h=" ++ toString t.height
+      (match op, dec arg with
+       | "gwi", some (some k) => (x, out (t.getReads k))
+       | "has", some (some k) => (x, out (t.hasReads k))
+       | "gbi", _ => (x, out (t.getByIndexReads arg.toNat!))
+       | _, _ => (x, "?"))
+    | _ => (x, "?")
   | "reads" :: _ => (x, "?")
   | ["changes", a, b] => (x, changesOut x.vs a.toNat! b.toNat!)
   | _ => (x, immOp (x.vs.base + 1) x.vs.working args)
